@@ -91,7 +91,9 @@ def dom_unary(f, x):
     if f in ("Erf", "Erfc"):
         return ax < 3
     if f in ("Tanh",):
-        return ax < 5
+        # Adept's derivative entry is 1 - result*result: for larger |x| the subtraction cancels and the multiplier
+        # loses relative accuracy like 2 r^2/(1-r^2) eps (1e4 eps at |x| = 5); kept where the amplification is < 10
+        return ax < 1.5
     return ax < BIG          # Atan Asinh UnaryPlus UnaryMinus
 
 
